@@ -114,6 +114,40 @@ theorem bind_roundtrip (P : Prims) (hP : LawfulPrims P) (rnd permKey keyId : Byt
       Ige.enc_length _ (hP.aesEnc_len _) _ _ hiv (by rw [List.length_append, hl', hpad]),
       List.length_append, hl', hpad]
 
+/-- **Decision structure of the bind receiver (MTProto 1.0 envelope).**  Whatever the specification-side
+receiver accepts has the 24-byte envelope with the permanent key's id, a block-aligned body, and
+`msg_key = substr (sha1 (message_data), 4, 16)` over the decrypted envelope up to `32 + msg_len` bytes —
+the v1 analogue of `C05.decrypt_ok_iff` (soundness direction). -/
+theorem decryptBind_sound (P : Prims) (permKey keyId c : Bytes) (m : Nat) (i : BindInner)
+    (h : Spec.decryptBind P permKey keyId c = some (m, i)) :
+    24 ≤ c.length ∧ c.take 8 = keyId ∧ (c.length - 24) % 16 = 0 ∧
+    ∃ len : Nat,
+      Spec.msgKeyV1 P ((Ige.dec (P.aesDec (Spec.keysV1 P permKey ((c.drop 8).take 16)).1)
+        (Spec.keysV1 P permKey ((c.drop 8).take 16)).2 (c.drop 24)).take (32 + len)) = (c.drop 8).take 16 := by
+  unfold Spec.decryptBind at h
+  split at h
+  · cases h
+  · rename_i hc
+    simp only [not_or, Decidable.not_not, Nat.not_lt] at hc
+    refine ⟨hc.1, hc.2.1, hc.2.2, ?_⟩
+    simp only at h
+    split at h
+    · split at h
+      · split at h
+        · split at h
+          · rename_i len _ _
+            split at h
+            · split at h
+              · cases h
+              · split at h
+                · cases h
+                · rename_i hk
+                  exact ⟨len, by simpa using hk⟩
+            · cases h
+          · cases h
+        · cases h
+      · cases h
+    · cases h
 /-- Non-vacuity: a lawful instance exists, and on it the derivation really depends on the direction. -/
 example : LawfulPrims Prims.toy := Prims.toy_lawful
 example : Spec.msgKey Prims.toy ((List.range 256).map UInt8.ofNat) [1, 2, 3] .client ≠
